@@ -173,7 +173,9 @@ QUpLe(i, j, w) == /\ SameVer(objs[i], objs[j]) /\ w \in Ver(objs[i])..Latest
 \* an operation on which the property statement is silent (== across versions)
 QUnspecified(i, j) == ~EqSpecified(objs[i], objs[j]) /\ ret' = [NoRet EXCEPT !.op = "unspecified"] /\ UNCHANGED <<objs, live>>
 
-Query == \E i \in live, j \in live :
+\* the operand pairs a query may take (a configuration may restrict them: MCProblemKindLattice)
+OperandPairs(lv) == lv \X lv
+Query == \E p \in OperandPairs(live) : LET i == p[1]  j == p[2] IN
            \/ QEq(i, j) \/ QLe(i, j) \/ QUnion(i, j) \/ QInter(i, j)
            \/ \E wh \in BoundOps : QBound(i, j, wh)
            \/ \E w \in Versions : QUpLe(i, j, w)
